@@ -18,7 +18,9 @@ LEVEL_TEXT = ("PARTIAL. Proved in Coq for every trace of atomic durable transiti
               "the stored operations of the topic above the cursor (C15_replay_exact, C15_delivered_exact); the cursor is the per-log maximum "
               "of committed acknowledgements (C15_cursor_is_max_acked), hence the replay set is exactly 'stored and not acknowledged, neither "
               "itself nor a later operation of its log' (C15_replay_iff_not_acked), C15_acked_not_redelivered, C15_unacked_replayed, "
-              "C15_replay_then_restart; API calls cut by a crash are such traces (C15_crash_anywhere_in_api_calls). The model is tied to the code on "
+              "C15_replay_then_restart; API calls cut by a crash are such traces (C15_crash_anywhere_in_api_calls); k acknowledgements in flight at once through the "
+              "stream's one Acked (permit modelled, Model/AckConc.v) leave, in every interleaving, the tables of the same acks made one after the other in some order "
+              "(C15_concurrent_acks_serialisable), so none of them is replayed after a restart (C15_concurrent_acks_not_redelivered). The model is tied to the code on "
               "every run: histories of publish/prune/import/ack on a real Node, crashed after each session and inside calls, restarted on the "
               "same database; tables are read with raw SQL before every restart; model line and implementation line are compared, the oracle "
               "checks the property on the observed tables and events. SQLite durability/atomicity and the process model are assumed, not verified.")
@@ -27,13 +29,16 @@ LEVEL_NOTE = ("Trusted: Coq kernel + vm_compute; hand-written model of acked.rs/
               "tasks at once; harness/python glue. Correspondence is differential testing bounded by the generators.")
 ASSUMPTIONS = ["SQLite: a committed transaction / single statement is atomic and survives a process crash (modelled, exercised by abort() runs, not verified)",
                "process model: a crash stops every task and thread of the node at once; restart uses the same signing key and database file",
-               "one Acked instance per cursor name at a time (acks serialised by the stream's semaphore); restarts use StreamFrom::Frontier",
+               "one Acked instance per cursor name at a time; tokio's Semaphore (one permit, FIFO, released on drop) serialises the calls made through it - modelled, exercised by the concurrent bursts; restarts use StreamFrom::Frontier",
                "imported operations carry the log id of the topic they are imported into; operation ids (hashes) are unique"]
 TRUSTED = ["modelled not verified: SQLite durability and atomicity, tokio task/thread scheduling of the stream task and pipeline thread, ed25519/BLAKE3, CBOR codecs"]
-RULE = ("quick: 3 fixed + 30 generated histories (2-4 node sessions each, 1-5 calls per session over publish/prune/import/ack/held-ack/other-topic publish, "
+RULE = ("quick: 4 fixed histories with a burst of concurrent acknowledgements (join_all free running / every call held at each schedule point of Acked::ack in turn / "
+        "one task per call on a multi-thread runtime; several authors; one log in descending order) + 3 fixed + 28 generated histories; generated sessions also contain such bursts "
+        "(2-5 held events, optionally an ack by hash, random label lists replayed through the schedule points, 30% free running); histories = "
+        "(2-4 node sessions each, 1-5 calls per session over publish/prune/import/ack/held-ack/other-topic publish, "
         "policies Explicit/Automatic per session, 1-3 authors, foreign logs up to 14 entries with body-less, undecodable and prune-flagged entries, "
-        "duplicate and out-of-order imports), crash by node drop after every session (all work awaited) or by abort() of a child process running the session; ~40% with a crash inside a call "
-        "(publish/import not awaited, replay consumed partially) - always by abort(); thorough: 3 + 240 histories, up to 6 sessions. "
+        "duplicate and out-of-order imports)), crash by node drop after every session (all work awaited) or by abort() of a child process running the session; ~40% with a crash inside a call "
+        "(publish/import not awaited, replay consumed partially) - always by abort(); thorough: 4 + 3 + 240 histories, up to 6 sessions. "
         "non-trivial = some restart replays at least one event while another stored operation with a body is held back by the cursor")
 
 POL = {"E": "Explicit", "A": "Automatic"}
@@ -79,6 +84,8 @@ def _gen_case(rng, tier, crash):
             kinds = ["P"] * 4 + ["A"] * 3 + ["K"] * 2 + ["O"]
             if flogs:
                 kinds += ["I"] * 4
+            if len(held) >= 2:
+                kinds += ["J"] * 4
             k = rng.choice(kinds)
             if k == "P":
                 r = rng.random()
@@ -114,6 +121,8 @@ def _gen_case(rng, tier, crash):
             elif k == "K":
                 if held:
                     ops.append(["K", rng.choice(held)])
+            elif k == "J":
+                ops.append(_gen_join(rng, held, published + [i for a in flogs for i in flogs[a][:imported_upto[a]]]))
             else:
                 ops.append(["O", next_other])
                 next_other += 1
@@ -135,7 +144,45 @@ def _gen_case(rng, tier, crash):
             "final": rng.choice(["E", "E", "A"])}
 
 
+def _interleave(rng, k, per=5, extra=0.3):
+    labels = [i for i in range(k) for _ in range(per)]
+    labels += [rng.randrange(k) for _ in range(int(len(labels) * extra))]
+    rng.shuffle(labels)
+    return labels
+
+
+def _gen_join(rng, held, pool):
+    """Several acknowledgements in flight at once: held events (K) and, on the session's own
+    runtime only, acks by hash (A); descending order half of the time (a stale write would move
+    the cursor backwards)."""
+    mode = rng.choice(["j", "j", "s"])
+    k = rng.randint(2, min(5, max(2, len(held))))
+    ents = [["K", i] for i in rng.sample(held, min(k, len(held)))]
+    if mode == "j" and pool and rng.random() < 0.4:
+        ents.append(["A", rng.choice(pool)])
+    if rng.random() < 0.5:
+        ents.sort(key=lambda e: -e[1])
+    sched = None if rng.random() < 0.3 else _interleave(rng, len(ents))
+    return ["J", mode, ents, sched]
+
+
+def _round_robin(k, rounds=6):
+    return [i for _ in range(rounds) for i in range(k)]
+
+
 def gen(tier, rng):
+    # concurrent acknowledgements: operations of several authors arrive by import and are all
+    # acknowledged at once (join_all, free running / every call started before any of them reads /
+    # tasks on a multi-thread runtime), then the node crashes and is restarted from the frontier
+    f8 = [[100 + a, a + 1, 0, "b", 0] for a in range(5)]
+    for mode, sched in (("j", None), ("j", _round_robin(5)), ("s", _round_robin(5))):
+        yield {"crash": "d", "me": 0, "n": 6, "foreign": f8, "racy": None, "final": "E",
+               "segs": [{"pol": "E", "ops": [["I", [100 + a for a in range(5)]],
+                                              ["J", mode, [["K", 100 + a] for a in range(5)], sched]]}]}
+    # one log, descending heights, the oldest call first at every point
+    yield {"crash": "d", "me": 0, "n": 1, "foreign": [], "racy": None, "final": "E",
+           "segs": [{"pol": "E", "ops": [["P", 1, 1, 0], ["P", 2, 1, 0], ["P", 3, 1, 0],
+                                          ["J", "j", [["K", 3], ["K", 2], ["A", 1]], [0, 0, 0, 1, 1, 0, 0, 2, 1, 1, 1, 2, 2, 2, 2, 2]]]}]}
     # fixed seeds of the shape the property is about
     yield {"crash": "d", "me": 0, "n": 1, "foreign": [], "racy": None, "final": "E",
            "segs": [{"pol": "E", "ops": [["P", 1, 1, 0], ["P", 2, 1, 0], ["P", 3, 1, 0], ["A", 2]]},
@@ -148,7 +195,7 @@ def gen(tier, rng):
     yield {"crash": "a", "me": 0, "n": 1, "foreign": [], "final": "A",
            "segs": [{"pol": "A", "ops": [["P", 1, 1, 0], ["O", 200]]}],
            "racy": {"kind": "p", "op": ["P", 2, 1, 0], "y": 2}}
-    ncases = 30 if tier == "quick" else 240
+    ncases = 28 if tier == "quick" else 240
     for i in range(ncases):
         if tier == "quick":
             crash = "a" if i % 3 == 0 else "d"
@@ -166,6 +213,9 @@ def _op_txt(op):
         return "P%d:%d:%d" % (op[1], op[2], op[3])
     if op[0] == "I":
         return "I" + ",".join(map(str, op[1]))
+    if op[0] == "J":
+        return "J%s:%s:%s" % (op[1], ".".join("%s%d" % (k, i) for k, i in op[2]),
+                              "free" if op[3] is None else ".".join(map(str, op[3])))
     return "%s%d" % (op[0], op[1])
 
 
@@ -223,6 +273,14 @@ def _hop(case, op):
     raise ValueError(op)
 
 
+def _hops(case, op):
+    """Model terms of one call.  A burst of concurrent acks is, for the tables it leaves behind,
+    the same acks one after the other (Properties/C15.v C15_concurrent_acks_serialisable)."""
+    if op[0] == "J":
+        return [_hop(case, [k, i]) for k, i in op[2]]
+    return [_hop(case, op)]
+
+
 def _other_seq(case, oid):
     n = 0
     for sg in case["segs"]:
@@ -235,7 +293,7 @@ def _other_seq(case, oid):
 
 
 def coq_model(case):
-    segs = _lst(["(Build_segment %s %s)" % (POL[sg["pol"]], _lst([_hop(case, o) for o in sg["ops"]])) for sg in case["segs"]])
+    segs = _lst(["(Build_segment %s %s)" % (POL[sg["pol"]], _lst([h for o in sg["ops"] for h in _hops(case, o)])) for sg in case["segs"]])
     rc = case.get("racy")
     if not rc:
         r = "RNone"
@@ -413,6 +471,15 @@ def shrink(case):
             c = copy.deepcopy(case)
             del c["segs"][i]["ops"][j]
             yield c
+            o = case["segs"][i]["ops"][j]
+            if o[0] == "J" and len(o[2]) > 2:
+                for x in range(len(o[2])):
+                    c = copy.deepcopy(case)
+                    oo = c["segs"][i]["ops"][j]
+                    del oo[2][x]
+                    if oo[3] is not None:
+                        oo[3] = [y - (1 if y > x else 0) for y in oo[3] if y != x]
+                    yield c
     if case["crash"] == "a" and not case.get("racy"):
         c = copy.deepcopy(case)
         c["crash"] = "d"
